@@ -61,7 +61,7 @@ PROPS["C04"] = {
 
 
 # properties whose check is not green yet are not claimed in MANIFEST.json
-NOT_YET = ["C01", "C09", "C10", "C11", "C12", "C13", "C15"]
+NOT_YET = ["C01", "C06", "C09", "C10", "C11", "C12", "C13", "C14", "C15"]
 
 
 def select(pid, tier, seed):
@@ -230,17 +230,33 @@ def cli_keys(mod_prefix, names, **kw):
     return out
 
 
+def enter_set(prefix, tags, n=3, **kw):
+    """Enter-class harnesses.  The handler-side oracle runs with a zero-sized history
+    buffer (cfg vp_h0), one instance per line length (a constant length lets the
+    loops over the line fold); the history side of Enter is decided separately from
+    an arbitrary history state (key_enter_history_v*).  Together with C10's push step
+    this covers Enter from any CliInv state; each half alone fits into memory."""
+    out = []
+    for v in range(0, n + 1):
+        out.append(H("%s_v%d" % (prefix, v), tags=tags, cfg=["vp_h0"], bounds="Enter from ANY editor state with a line of exactly %d bytes (N=3), history buffer of size 0, three prompts; handler view compared on call count and command name" % v, timeout=2400, mem=10, **kw))
+        out.append(H("%s_v%d" % (prefix, v), tags=tags, cfg=["vp_h0"], features=["history", "autocomplete"], bounds="same, build without `help`: handler view compared item by item", timeout=2400, mem=10, **kw))
+    # history side of Enter: N=3 with a 2-byte history buffer (empty, or one 1-byte entry:
+    # recorded / duplicate / evicted / too long); larger history states are C10's push step
+    for v in (1, 2):
+        out.append(H("cli_steps::key_enter_history_v%d" % v, tags=tags, cfg=["vp_h2"], bounds="Enter from ANY CliInv state (N=3, H=2) with a line of exactly %d bytes: history side" % v, timeout=2400, mem=10, **kw))
+    return out
+
+
 CHEAP = ["key_backspace", "key_forward", "key_back", "key_up", "key_down", "key_char1", "key_char2", "key_char3", "key_char4", "key_tab"]
 
 PROPS["C01"] = {
     "claim": "Cli-level one-step induction: from ANY state satisfying CliInv (N=3,H=3 quick; N=4 thorough) no key other than Enter enters the handler; Enter enters it exactly once iff the line has a token and is not a help request, with exactly the reference tokens (name + classified arguments), leaves an empty line, records the text in the history and prints one fresh prompt on a new row; CliInv is re-established, so the claim covers edit histories of any length",
     "assumptions": CLI_ASSUME,
     "harnesses": cli_keys("cli_steps", CHEAP, tags=["C01"], timeout=900, mem=4) + [
-        H("cli_steps::key_enter", tags=["C01"], bounds=CLI_BOUNDS + "; handler view compared on call count and command name (argument items: next entry and process_input_routing)", timeout=2400, mem=14),
-        H("cli_steps::key_enter", tags=["C01"], features=["history", "autocomplete"], bounds=CLI_BOUNDS + "; build without `help`: handler view compared item by item", timeout=2400, mem=14),
+    ] + enter_set("cli_steps::key_enter", ["C01"]) + [
         H("cli_steps::process_input_routing", tags=["C01", "C12"], bounds="every token buffer of <= 6 well-formed bytes handed to process_input", timeout=2400, mem=14),
         H("cli_steps::api_build", tags=["C01"], bounds="CliBuilder::build() with each of the three prompts"),
-        H("cli_steps::key_enter_twin", kind="twin"),
+        H("cli_steps::key_enter_twin", kind="twin", cfg=["vp_h0"], mem=10),
     ],
 }
 
@@ -248,7 +264,11 @@ PROPS["C15"] = {
     "claim": "after every successful Cli-level step (every key incl. Enter, from ANY CliInv state, N=3,H=3) the counting sink has no unflushed byte",
     "assumptions": CLI_ASSUME,
     "harnesses": cli_keys("cli_steps", CHEAP, tags=["C15"], timeout=900, mem=4) + [
-        H("cli_steps::key_enter", tags=["C15"], bounds=CLI_BOUNDS, timeout=1800, mem=10),
+    ] + [h for h in enter_set("cli_steps::key_enter", ["C15"]) if "features" not in h] + [
+        H("cli_steps::api_write_set_prompt", tags=["C15", "C13"], bounds="Cli::set_prompt / Cli::write(write_str|writeln_str of <= 2 bytes over {x, LF}) from ANY CliInv state", timeout=900, mem=4),
+        H("cli_steps::api_build", tags=["C15"], bounds="CliBuilder::build() with each of the three prompts"),
+        H("cli_steps::process_input_routing", tags=["C15"], bounds="every token buffer of <= 6 well-formed bytes handed to process_input (help and error output included)", timeout=2400, mem=14),
+        H("cli_steps::key_enter_twin", kind="twin", cfg=["vp_h0"], mem=10),
     ],
 }
 
@@ -259,13 +279,46 @@ PROPS["C09"] = {
         "assumed away (statement silent): an option name directly followed by another option, by `--` or by the end of the line; a value-taking option given twice",
         "f32/f64 and the wider integer types are outside the claim",
     ],
-    "harnesses": [
-        H("c09_derive::c09_p1_exit", bounds="unit variant, every token buffer <= 5 bytes", timeout=1200, mem=6),
-        H("c09_derive::c09_p1_led", bounds="positional u8 + Option<u8> option (-l/--lv) + flag (-v/--verbose), every token buffer <= 5 bytes", timeout=1800, mem=8),
-        H("c09_derive::c09_p1_read", bounds="renamed command, &str positional + i8 positional with default_value, every token buffer <= 5 bytes", timeout=1800, mem=8),
-        H("c09_derive::c09_p1_cfg", bounds="u8 option with default_value_t (--n), required &str option with value_name (-k), non-ASCII flag, every token buffer <= 5 bytes", timeout=1800, mem=8),
+    "harnesses": [H("c09_derive::n%d::%s" % (n, v), tier=("both" if n <= 5 else "thorough"), cfg=(["vp_thorough"] if n == 6 else []), bounds="%s, every well-formed token buffer of exactly %d bytes" % (d, n), timeout=2400, mem=8)
+                  for n in range(0, 7)
+                  for (v, d) in [("p1_exit", "unit variant"),
+                                 ("p1_led", "positional u8 + Option<u8> option (-l/--lv) + flag (-v/--verbose)"),
+                                 ("p1_read", "renamed command, &str positional + i8 positional with default_value"),
+                                 ("p1_cfg", "u8 option with default_value_t (--n), required &str option with value_name (-k), non-ASCII flag"),
+                                 ("p2_base", "named variant with a flag and a required sub-command; sub-command name is the last token"),
+                                 ("p2_tup", "renamed tuple variant with a sub-command"),
+                                 ("p2_opt", "optional sub-command")]] + [
         H("c09_derive::c09_name_dispatch", bounds="every command name of <= 4 bytes against P1 and the group G", timeout=1200, mem=6),
-        H("c09_derive::c09_p2_subcommand", bounds="three parent variants (named, tuple, optional sub-command), every token buffer <= 5 bytes whose sub-command name is the last token", timeout=1800, mem=8),
         H("c09_derive::c09_twin", kind="twin"),
+    ],
+}
+
+SHOW_KEYS = ["show_backspace", "show_forward", "show_back", "show_up", "show_down", "show_tab", "show_char1", "show_char2", "show_char3"]
+
+PROPS["C06"] = {
+    "claim": "coupling invariant Show(cli, terminal): with an ECMA-48 subset terminal emulator as the sink (printable scalars, CR, LF, CSI C/D/P/@/2K; anything else is an error), constructed so that it shows prompt + line with the cursor at the editor's cursor for an ARBITRARY CliInv state (N=3,H=3, three prompts incl. a multi-byte one), one step of every key (typed scalar of 1-3 bytes inside / at the end / rejected, Backspace, Left, Right, Up, Down, Tab, Enter with a handler that writes nothing / writes text / changes the prompt), Cli::write and Cli::set_prompt leaves the terminal showing prompt + line with the cursor at the editor's cursor again; by induction at every moment of every session",
+    "assumptions": CLI_ASSUME + [
+        "every scalar has display width 1 (the property's own quantifier); DEL is excluded from lines and typed characters",
+        "terminal width is larger than prompt + N + 2 cells (no wrapping)",
+    ],
+    "harnesses": cli_keys("cli_term", SHOW_KEYS, tags=["C06"], timeout=1200, mem=5) + [
+        H("cli_term::show_enter", tags=["C06", "C13"], cfg=["vp_h0"], bounds="Enter from ANY editor state (N=3, history buffer of size 0), handler writes nothing / <=2 bytes over {x, LF} / changes the prompt", timeout=2400, mem=12),
+        H("cli_term::show_cli_write", tags=["C06", "C13"], bounds="Cli::write(write_str of <= 2 bytes over {x, LF}) from ANY CliInv state", timeout=1200, mem=5),
+        H("cli_term::show_set_prompt", tags=["C06"], bounds="Cli::set_prompt(any of three prompts) from ANY CliInv state", timeout=1200, mem=5),
+        H("cli_term::show_twin", kind="twin"),
+    ],
+}
+
+FAIL_KEYS = ["fail_backspace", "fail_forward", "fail_back", "fail_up", "fail_down", "fail_char1", "fail_char2", "fail_tab"]
+
+PROPS["C14"] = {
+    "claim": "with a sink that fails at a SYMBOLIC call position (write and flush calls counted together; once or permanently), every Cli-level step from ANY CliInv state (N=3,H=3): the call returns Err iff the sink failed during it; editor and decoder are restored; the line is as before, as the key would have left it, or cleared; CliInv holds afterwards (so later input is decoded normally and a later Enter dispatches only typed text, by C01/C05 induction)",
+    "assumptions": CLI_ASSUME + ["handler output is one of: nothing, write_str(\"o\"), writeln_str(\"o\")"],
+    "harnesses": cli_keys("cli_fail", FAIL_KEYS, tags=["C14"], timeout=1200, mem=5) + [
+        H("cli_fail::fail_enter", tags=["C14"], cfg=["vp_h0"], bounds="Enter from ANY editor state (N=3, history buffer of size 0), handler writes nothing / \"o\" / \"o\"+newline, fault at any call position", timeout=2400, mem=12),
+        H("cli_fail::fail_cli_write", tags=["C14"], bounds="Cli::write / Cli::set_prompt from ANY CliInv state, fault at any call position", timeout=1200, mem=5),
+        H("cli_fail::fail_process_error", tags=["C14"], bounds="the `error:` line for three kinds of parse error (every scalar as short option), fault at any call position", timeout=1200, mem=5),
+        H("cli_fail::fail_group_help", tags=["C14", "C12"], bounds="help for a command of the first / second member of a derived command group and `-h` on a command, fault at any call position (once or permanently)", timeout=1800, mem=8),
+        H("cli_fail::fail_twin", kind="twin"),
     ],
 }
